@@ -308,10 +308,24 @@ class Mode:
                             cls_args[f"@cls:{pn}"] = av[1].rsplit(".", 1)[-1]
                         elif op(av) == "param" and f"@cls:{av[1]}" in A:
                             cls_args[f"@cls:{pn}"] = A[f"@cls:{av[1]}"]
+                    # a CURIE the converter has just produced (compress / format_curie / standardize_curie, tested for
+                    # None) contains the delimiter: splitting it again cannot fail for want of one
+                    def _produced(t_) -> bool:
+                        return op(t_) == "call" and op(t_[1]) == "attr" and t_[1][2] in ("compress", "compress_strict", "format_curie", "standardize_curie")
+
+                    a0 = c[2][0] if c[2] else None
+                    if op(a0) == "lv":
+                        vals = [ev.b for ev, _ in s.walk() if ev.kind == "bind" and ev.a == a0[1]]
+                        produced = bool(vals) and all(_produced(v_) for v_ in vals)
+                    else:
+                        produced = _produced(a0)
+                    has_delim = callee.name in ("from_curie", "_split") and produced
                     for A2 in self.callee_assignments(callee, c, A):
                         A2 = {**A2, **cls_args}
                         sub = self.analyse(callee, A2, stack + (fn.qualname,))
                         for e in sub.raises:
+                            if has_delim and e.cls == "NoCURIEDelimiterError":
+                                continue
                             if not self._caught(e.cls, cov):
                                 res.raises.add(Esc(e.cls, e.origin, e.line, (fn.qualname,) + e.via))
                 elif op(c) == "bin" and c[1] == "%" and (op(c[2]) in ("concat", "fmt") or (op(c[2]) == "param" and op(c[3]) in ("tuple", "star", "param", "attr", "call"))):
